@@ -279,8 +279,15 @@ where
     }
 
     /// Returns the color of a pixel.
+    ///
+    /// `None` is returned for pixels that weren't drawn to, which includes all points outside the
+    /// display area.
     pub const fn get_pixel(&self, p: Point) -> Option<C> {
         let Point { x, y } = p;
+
+        if x < 0 || y < 0 || x >= SIZE as i32 || y >= SIZE as i32 {
+            return None;
+        }
 
         self.pixels[x as usize + y as usize * SIZE]
     }
